@@ -16,21 +16,23 @@ EXTENDS Naturals, Sequences, FiniteSets, TLC
 
 CONSTANTS Sharing
 
-VARIABLES todo,       \* todo[t]: the text cells saver t writes, in writer order (never changes)
+VARIABLES todo,       \* todo[t]: the text cells of the *loaded* sheets saver t writes, in writer order (never changes)
           grp,        \* grp[t]: the workbook family of saver t (never changes)
+          base,       \* base[t]: the string table the save starts from: <<>>, or the table of the file the
+                      \*          workbook was lazily loaded from while some of its sheets are still raw
           pc, nxt, table, idx, part, dump, rel
-cvars == <<todo, grp, pc, nxt, table, idx, part, dump, rel>>
+cvars == <<todo, grp, base, pc, nxt, table, idx, part, dump, rel>>
 Savers == DOMAIN todo
 
 TableOf(st, t) == IF Sharing = "shared" THEN st.grp[t] ELSE t
 SeqSet(q) == {q[i] : i \in DOMAIN q}
 Pos(q, s) == CHOOSE i \in DOMAIN q : q[i] = s
 
-CInitWith(td, gr) ==
-         /\ todo = td /\ grp = gr
+CInitWith(td, gr, bs) ==
+         /\ todo = td /\ grp = gr /\ base = bs
          /\ pc = [t \in Savers |-> "begin"]
          /\ nxt = [t \in Savers |-> 1]
-         /\ table = [k \in Savers |-> <<>>]
+         /\ table = [k \in Savers |-> bs[k]]
          /\ idx = [t \in Savers |-> <<>>]
          /\ part = [t \in Savers |-> FALSE]
          /\ dump = [t \in Savers |-> <<>>]
@@ -54,12 +56,12 @@ StepOf(st, t) ==
     [] st.pc[t] = "rels" -> [st EXCEPT !.rel[t] = st.table[k] # <<>>, !.pc[t] = "end"]
     [] st.pc[t] = "end" -> [st EXCEPT !.pc[t] = "done"]
 
-State == [todo |-> todo, grp |-> grp, pc |-> pc, nxt |-> nxt, table |-> table, idx |-> idx, part |-> part, dump |-> dump, rel |-> rel]
+State == [todo |-> todo, grp |-> grp, base |-> base, pc |-> pc, nxt |-> nxt, table |-> table, idx |-> idx, part |-> part, dump |-> dump, rel |-> rel]
 Step(t) == /\ pc[t] # "done"
            /\ LET n == StepOf(State, t) IN
               /\ pc' = n.pc /\ nxt' = n.nxt /\ table' = n.table /\ idx' = n.idx
               /\ part' = n.part /\ dump' = n.dump /\ rel' = n.rel
-              /\ UNCHANGED <<todo, grp>>
+              /\ UNCHANGED <<todo, grp, base>>
 CNext == \E t \in Savers : Step(t)
 
 (* ---- C16 ------------------------------------------------------------------ *)
@@ -71,6 +73,6 @@ OwnStrings == \A t \in Savers : Done(t) =>
 (* the part is written iff it is referenced: otherwise the package is corrupt *)
 PartIffRel == \A t \in Savers : Done(t) => (part[t] <=> rel[t])
 (* the file has the content a solo save would have: nothing of the other savers *)
-NoForeign  == \A t \in Savers : Done(t) => SeqSet(dump[t]) = SeqSet(todo[t])
+NoForeign  == \A t \in Savers : Done(t) => SeqSet(dump[t]) = SeqSet(todo[t]) \cup SeqSet(base[t])
 Terminates == <>(\A t \in Savers : Done(t))
 =============================================================================
